@@ -443,7 +443,59 @@ fn run_arbitrary(rep: &mut CaseReport, old: &str, new: &str, priors: &[PriorSpec
             rep.violate("C16:panic", format!("panic {p}; old {:?} new {:?} priors {:?}", head(old), head(new), pri.iter().map(|a| (a.start, a.end)).collect::<Vec<_>>()));
             return;
         }
-        Ok((_filled, upd, upd2)) => {
+        Ok((filled, upd, upd2)) => {
+            // fill oracle (conservative + total): the result keeps every prior as it was and
+            // adds ranges of the filling author that cover exactly the characters no prior
+            // touches - compared as byte coverage, not as a particular segmentation
+            if !splits {
+                let mut rest: Vec<&Attribution> = filled.iter().collect();
+                for a in &pri {
+                    match rest.iter().position(|b| b.start == a.start && b.end == a.end && b.author_id == a.author_id && b.ts == a.ts) {
+                        Some(i) => {
+                            rest.remove(i);
+                        }
+                        None => {
+                            rep.violate("C16:fill-dropped-or-altered-a-prior", format!("prior {:?} missing from the filled set; text {:?}", (a.start, a.end, &a.author_id), head(old)));
+                            break;
+                        }
+                    }
+                }
+                let added_owned: Vec<Attribution> = rest.iter().map(|a| (*a).clone()).collect();
+                check_bounds(rep, "fill (added ranges)", &added_owned, old, false);
+                let mut added = vec![false; old.len()];
+                for b in &rest {
+                    if b.author_id != "human" {
+                        rep.violate("C16:fill-added-range-for-another-author", format!("added {:?}", (b.start, b.end, &b.author_id)));
+                    }
+                    for i in b.start.min(old.len())..b.end.min(old.len()) {
+                        if added[i] {
+                            rep.violate("C16:fill-added-overlapping-ranges", format!("byte {i} covered twice by added ranges; text {:?}", head(old)));
+                            break;
+                        }
+                        added[i] = true;
+                    }
+                }
+                for (idx, ch) in old.char_indices() {
+                    let end = idx + ch.len_utf8();
+                    let covered = pri.iter().any(|a| a.start < end && a.end > idx);
+                    let filled_here = added[idx..end].iter().all(|x| *x);
+                    let partly = added[idx..end].iter().any(|x| *x);
+                    if covered && partly {
+                        rep.violate(
+                            "C16:fill-covers-text-that-already-has-an-author",
+                            format!("char at {idx} is covered by a prior and by an added range; priors {:?} added {:?} text {:?}", pri.iter().map(|a| (a.start, a.end)).collect::<Vec<_>>(), rest.iter().map(|a| (a.start, a.end)).collect::<Vec<_>>(), head(old)),
+                        );
+                        break;
+                    }
+                    if !covered && !filled_here {
+                        rep.violate(
+                            "C16:fill-leaves-unattributed-text",
+                            format!("char at {idx} has no author after the fill; priors {:?} added {:?} text {:?}", pri.iter().map(|a| (a.start, a.end)).collect::<Vec<_>>(), rest.iter().map(|a| (a.start, a.end)).collect::<Vec<_>>(), head(old)),
+                        );
+                        break;
+                    }
+                }
+            }
             for (name, u) in [("update(priors)", upd), ("update(filled priors)", upd2)] {
                 match u {
                     Err(e) => rep.violate("C16:update-returned-error", format!("{name}: {e}")),
